@@ -332,7 +332,7 @@ class Gen:
             d = r.below(NSLOT)
             if o in ao:
                 S[d] = self.new("fn")
-            self.emit("newffun %d %d %d" % (d, o, r.below(4)))
+            self.emit("newffun %d %d %d" % (d, o, r.below(6)))
         elif k == "fill":
             d, t = r.below(NSLOT), self.pick_slot()
             n = r.weighted([(2, 3), (7, 3), (64, 2), (300, 1)])
@@ -947,7 +947,7 @@ class C06(Prop):
         # function pointers compiled into a program ((: ... :), function () {}): func_ref of the program whose code made them -
         # the object's own program or the one it inherits - after creation, copies, release, destruct + cleanup
         mk("functionals-func_ref-lpc", "lpc",
-           ["newobj 0", "newobj 1", "newffun 0 0 0", "newffun 1 0 1", "newffun 2 1 2", "newffun 3 1 3", "newffun 4 0 1", "assign 5 1", "newarr 6 2",
+           ["newobj 0", "newobj 1", "newffun 0 0 0", "newffun 1 0 1", "newffun 2 1 2", "newffun 3 1 3", "newffun 4 0 1", "newffun 7 0 4", "newffun 8 1 5", "free 7", "free 8", "assign 5 1", "newarr 6 2",
             "aset 6 0 1", "setvar 1 0 3", "free 1", "free 0", "free 5", "dest 0", "cleanup", "free 6", "free 4", "free 2", "drop 0", "dest 1", "cleanup",
             "free 3", "drop 1"])
         mk("functionals-bind-lpc", "lpc", ["newobj 0", "newarr 0 2", "efun 89 0 0", "newffun 1 0 1", "efun 89 0 1", "fefun 89 0 0 0", "free 1", "free 0",
